@@ -28,7 +28,7 @@ RULE = (
     "TaskiqDepends parameters at any position (for a third of them the caller passes an explicit value by keyword, which must win over the dependency); a VALID call split (positional prefix up to the first dependency or "
     "omitted parameter, the rest by keyword, defaults optionally omitted); values JSON-exact (None, bool, ints incl. "
     ">64 bit, finite floats, surrogate-free text, nested lists/dicts) or model/dataclass instances; validate_params "
-    "on/off; codec JSON / pickle / JSONFormatter; sync or async function. >=50% of the cases come from a 'drift' family: "
+    "on/off; codec JSON / pickle / JSONFormatter; sync or async function; in a third of the cases a shared task of the same name but with other annotations exists in the global registry (the broker's own task must win). >=50% of the cases come from a 'drift' family: "
     "all parameters passed positionally, un-annotated ones in front of / between annotated ones, each value taken from "
     "a pool of AMBIGUOUS values ('7', '1', 'true', 1, 2.0, {'x': '4'}, [1, '2'], ...) that convert differently under a "
     "neighbouring parameter's annotation - so a mis-binding is observable; a 'mixed' family (positional prefix + keyword rest, same ambiguous values) covers the args/kwargs boundary. Sent through AsyncKicker.kiq -> formatter "
@@ -103,6 +103,7 @@ def cases() -> Any:
         "validate": st.sampled_from([True, True, True, False]),
         "codec": st.sampled_from(["json", "json", "pickle", "jsonfmt"]),
         "is_async": st.booleans(),
+        "shadow": st.sampled_from([False, False, True]),
     })
 
 
@@ -197,6 +198,9 @@ def run_case(c: Dict[str, Any]) -> Outcome:
     allnames = [names[id(p)] for p, _ in plist]
     body = "    GOT.update(dict(" + ", ".join(f"{n}={n}" for n in allnames) + "))\n"
     exec(("async def" if c["is_async"] else "def") + f" task({sig}):\n" + body, ns)
+    if c.get("shadow"):
+        shadow_sig = ", ".join(f"{n}: str = ''" for n in reversed(allnames))
+        exec(f"def shadow_task({shadow_sig}):\n    GOT['__shadow_ran__'] = True\n", ns)
     args: List[Any] = []
     kwargs: Dict[str, Any] = {}
     positional_open = True
@@ -244,6 +248,13 @@ def run_case(c: Dict[str, Any]) -> Outcome:
         if c["codec"] == "jsonfmt":
             b.formatter = JSONFormatter()
         b.register_task(ns["task"], task_name="t")
+        if c.get("shadow"):
+            # a shared task registered under the SAME name with other annotations: the broker's own task wins
+            # (find_task / get_all_tasks), for execution and therefore for argument parsing as well
+            from taskiq.brokers.shared_broker import AsyncSharedBroker
+
+            AsyncBroker.global_task_registry.pop("t", None)
+            AsyncSharedBroker().register_task(ns["shadow_task"], task_name="t")
         r = Receiver(b, executor=Inline(), validate_params=validate, max_async_tasks=5, run_startup=False)
         k = AsyncKicker("t", b, {"lbl": 1, "s": "x"}).with_task_id("T")
         m = k._prepare_message(*args, **kwargs)
@@ -253,7 +264,12 @@ def run_case(c: Dict[str, Any]) -> Outcome:
         res = await b.result_backend.get_result("T") if await b.result_backend.is_result_ready("T") else None
         return m, back, res
 
-    m, back, res = asyncio.run(go())
+    try:
+        m, back, res = asyncio.run(go())
+    finally:
+        AsyncBroker.global_task_registry.pop("t", None)
+    if got.get("__shadow_ran__"):
+        out.add("C08.a", "the same-named shared task was executed instead of the broker's own task")
     if back != m:
         out.add("C08.c", f"formatter round trip changed the message ({c['codec']}): {short(back, 300)} != {short(m, 300)}")
     if res is None or res.is_err:
@@ -293,7 +309,7 @@ def run_case(c: Dict[str, Any]) -> Outcome:
     out.classes = [c["codec"], "validate" if validate else "no_validate"] + [cl for cl, f in (
         ("unannotated_before_annotated", unann_first), ("all_positional", len(args) == len([p for p in pos + kwo if not p["dep"]])),
         ("has_dependency_param", any(p["dep"] for p in params)), ("has_kwonly", bool(kwo)), ("omitted_default", any(names[id(p)] not in passed and not p["dep"] for p in pos + kwo)),
-        ("model_or_dataclass_value", any(isinstance(mkval(p["val"]), (M, D)) for p in params)), ("observable_misbinding", observable)) if f]
+        ("model_or_dataclass_value", any(isinstance(mkval(p["val"]), (M, D)) for p in params)), ("observable_misbinding", observable), ("same_named_shared_task", bool(c.get("shadow")))) if f]
     out.trace = {"signature": f"def task({sig})", "args": short(args, 200), "kwargs": short(kwargs, 200)}
     return out
 
